@@ -188,6 +188,22 @@ def run(ctx):
             ctx.count("exhaustive_strings")
             check_string(ctx, {"s": "".join(seq)})
     ctx.info["exhaustive_token_sequences"] = f"all {n} sequences of <= {bound} tokens over {TOKENS}"
+    # juxtaposition family: every run of 2..3 (thorough: 4) directly adjacent factors - literal, variable, function call, group -
+    # each bare or followed by ^2 or !, with and without a leading minus and a trailing addend: what a suffix binds to must
+    # not depend on which kinds of factor stand next to each other (e.g. a literal before a function call before ^)
+    atoms = ["2", "x", "sgn(x)", "(x+1)", "3.5", "y"]
+    forms = [a + suf for a in atoms for suf in ("", "^2", "!")]
+    m = 0
+    for k in range(2, (3 if ctx.tier == "quick" else 4) + 1):
+        for seq in itertools.product(forms, repeat=k):
+            for pre, post in (("", ""), ("-", ""), ("", "+1")) if k < 4 else (("", ""),):
+                m += 1
+                if m % ctx.nshards != ctx.shard:
+                    continue
+                ctx.count("evaluations")
+                ctx.count("juxtaposition_strings")
+                check_string(ctx, {"s": pre + "".join(seq) + post})
+    ctx.info["juxtaposition_family"] = f"{m} strings: runs of 2..{3 if ctx.tier == 'quick' else 4} adjacent factors over {forms}"
     strat = G.grammar_strings(10 if ctx.tier == "quick" else 16).map(lambda s: {"s": s})
     hyp_run(ctx, "grammar-strings", strat, check_string, ctx.n(12000, 100000))
     if ctx.tier == "thorough":
